@@ -32,6 +32,14 @@ def producers(tier):
     return out
 
 
+def _sig(obj):
+    import inspect
+    try:
+        return inspect.signature(obj.forward).parameters
+    except (TypeError, ValueError):
+        return {}
+
+
 def soft_output(s, rows, nv):
     """Noise-free soft output of producer s for a batch of equally long bit rows -> (LLR tensor (N, L'), expected bits rows)."""
     b = s.b
@@ -229,7 +237,17 @@ def run(run):
                         llr, _ = soft_output(s, rows, nv)
                     raised = False
                     try:
-                        out = dec(llr.reshape(len(rows) * b, n).clone())
+                        Lin = llr.reshape(len(rows) * b, n).clone()
+                        out = dec(Lin)
+                        # the documented optional result (return_errors=True): the message that comes with the error pattern is the same message
+                        if True:
+                            try:
+                                o2 = dec(Lin.clone(), return_errors=True)
+                                o2 = o2[0] if isinstance(o2, tuple) else o2
+                                if torch.is_tensor(o2) and (o2.shape != out.shape or not torch.equal(o2.double(), out.double())):
+                                    out = o2
+                            except Exception:
+                                pass
                         if isinstance(out, tuple):
                             out = out[0]
                         out = out.reshape(len(rows), -1)
